@@ -10,15 +10,12 @@ package rules
 import (
 	"fmt"
 	"go/ast"
-	"go/constant"
 	"go/token"
 	"go/types"
 	"path"
 	"sort"
 	"strconv"
 	"strings"
-
-	"golang.org/x/tools/go/types/typeutil"
 
 	"gofasta-verif/core"
 	"gofasta-verif/eval"
@@ -32,11 +29,11 @@ const (
 
 type cmdFlag struct {
 	name, short string
-	v           *types.Var
 	kind        string // string int bool float64 float32
 	def         interface{}
 	persistent  bool
 	pos         token.Pos
+	lookupPos   token.Pos
 }
 
 type cmdNoOpt struct {
@@ -45,13 +42,17 @@ type cmdNoOpt struct {
 }
 
 type cmdNode struct {
-	noOpt  []cmdNoOpt // flags given a NoOptDefVal in init()
-	use    string
-	obj    *types.Var
-	runE   *ast.FuncLit
-	parent *cmdNode
-	flags  []*cmdFlag
-	pos    token.Pos
+	noOpt      []cmdNoOpt // flags given a NoOptDefVal in init()
+	use        string
+	sv         *eval.StructVal // the command's struct value in the evaluator that interpreted init()
+	runE       *ast.FuncLit
+	runEV      *eval.FuncVal
+	preRunE    *eval.FuncVal
+	argsV      *eval.FuncVal
+	otherHooks []string
+	parent     *cmdNode
+	flags      []*cmdFlag
+	pos        token.Pos
 }
 
 func (n *cmdNode) path() string {
@@ -82,198 +83,269 @@ func (n *cmdNode) visible() []*cmdFlag {
 	return out
 }
 
-// cmdTree extracts commands, their parents and their flag bindings from package cmd using resolved callees.
-func cmdTree(c *core.Ctx) (map[string]*cmdNode, error) {
+// cmdInit is what interpreting package cmd's init() functions registers: the commands (by identity of their struct
+// value), their parents, and every flag binding with the reference the flag writes through. Nothing here looks at
+// how the registration is written - flag variables may be package-level variables or fields of an options struct,
+// registered directly in init() or through a helper - only at which pflag/cobra calls are made with which values.
+type cmdInit struct {
+	nodes    map[*eval.StructVal]*cmdNode
+	refs     map[*cmdFlag]*eval.Ref
+	flagMeta map[*cmdFlag]*eval.StructVal // the pflag.Flag model handed out by Lookup (NoOptDefVal is assigned on it)
+	order    []*cmdNode
+	problems []string
+}
+
+// interpretCmdInit runs every init() of package cmd in ev with recording models of the cobra/pflag registration API.
+func interpretCmdInit(c *core.Ctx, ev *eval.Evaluator) (*cmdInit, error) {
 	p := c.Pkgs["cmd"]
 	if p == nil {
 		return nil, fmt.Errorf("package cmd not loaded")
 	}
-	info := p.TypesInfo
-	byObj := map[*types.Var]*cmdNode{}
-	for _, file := range p.Syntax {
-		for _, d := range file.Decls {
-			gd, ok := d.(*ast.GenDecl)
-			if !ok || gd.Tok != token.VAR {
-				continue
-			}
-			for _, sp := range gd.Specs {
-				vs := sp.(*ast.ValueSpec)
-				for i, n := range vs.Names {
-					if i >= len(vs.Values) {
-						continue
-					}
-					obj, _ := info.Defs[n].(*types.Var)
-					if obj == nil || !strings.HasSuffix(obj.Type().String(), "cobra.Command") {
-						continue
-					}
-					var lit *ast.CompositeLit
-					switch v := vs.Values[i].(type) {
-					case *ast.UnaryExpr:
-						lit, _ = v.X.(*ast.CompositeLit)
-					case *ast.CompositeLit:
-						lit = v
-					}
-					if lit == nil {
-						continue
-					}
-					node := &cmdNode{obj: obj, pos: n.Pos()}
-					for _, el := range lit.Elts {
-						kv, ok := el.(*ast.KeyValueExpr)
-						if !ok {
-							continue
-						}
-						key, _ := kv.Key.(*ast.Ident)
-						if key == nil {
-							continue
-						}
-						switch key.Name {
-						case "Use":
-							if tv, ok := info.Types[kv.Value]; ok && tv.Value != nil && tv.Value.Kind() == constant.String {
-								node.use = strings.Fields(constant.StringVal(tv.Value) + " ")[0]
-							}
-						case "RunE":
-							node.runE, _ = kv.Value.(*ast.FuncLit)
-						}
-					}
-					byObj[obj] = node
-				}
-			}
-		}
-	}
-	cmdOf := func(e ast.Expr) *cmdNode {
-		id, ok := unparenExpr(e).(*ast.Ident)
+	ci := &cmdInit{nodes: map[*eval.StructVal]*cmdNode{}, refs: map[*cmdFlag]*eval.Ref{}, flagMeta: map[*cmdFlag]*eval.StructVal{}}
+	nodeOf := func(v eval.Value) *cmdNode {
+		sv, ok := unref(v).(*eval.StructVal)
 		if !ok {
 			return nil
 		}
-		v, _ := info.Uses[id].(*types.Var)
-		return byObj[v]
+		if n, ok := ci.nodes[sv]; ok {
+			return n
+		}
+		n := &cmdNode{sv: sv}
+		if u, ok := sv.F["Use"].(eval.Str); ok && u.IsConst() {
+			n.use = strings.Fields(u.Const() + " ")[0]
+		}
+		for _, k := range []string{"RunE", "PreRunE", "PersistentPreRunE", "Args", "Run", "PreRun"} {
+			if fv, ok := sv.F[k].(*eval.FuncVal); ok && fv != nil {
+				switch k {
+				case "RunE":
+					n.runE = fv.Lit
+					n.runEV = fv
+				case "PreRunE":
+					n.preRunE = fv
+				case "Args":
+					n.argsV = fv
+				default:
+					n.otherHooks = append(n.otherHooks, k)
+				}
+				if n.pos == token.NoPos && fv.Lit != nil {
+					n.pos = fv.Lit.Pos()
+				}
+			}
+		}
+		ci.nodes[sv] = n
+		ci.order = append(ci.order, n)
+		return n
 	}
-	var problems []string
-	for _, file := range p.Syntax {
-		ast.Inspect(file, func(n ast.Node) bool {
-			if as, isAssign := n.(*ast.AssignStmt); isAssign && len(as.Lhs) == 1 {
-				// X.Flags().Lookup("name").NoOptDefVal = "..."
-				if sel, ok := unparenExpr(as.Lhs[0]).(*ast.SelectorExpr); ok && sel.Sel.Name == "NoOptDefVal" {
-					if lk, ok := unparenExpr(sel.X).(*ast.CallExpr); ok {
-						if lfn, _ := typeutil.Callee(info, lk).(*types.Func); lfn != nil && lfn.FullName() == pflagSet+"Lookup" && len(lk.Args) == 1 {
-							if lsel, ok := unparenExpr(lk.Fun).(*ast.SelectorExpr); ok {
-								if inner, ok := unparenExpr(lsel.X).(*ast.CallExpr); ok {
-									if isel, ok := unparenExpr(inner.Fun).(*ast.SelectorExpr); ok {
-										if owner := cmdOf(isel.X); owner != nil {
-											if tv, ok := info.Types[lk.Args[0]]; ok && tv.Value != nil && tv.Value.Kind() == constant.String {
-												owner.noOpt = append(owner.noOpt, cmdNoOpt{constant.StringVal(tv.Value), as.Pos()})
-											}
-										}
-									}
-								}
-							}
-						}
-					}
-				}
-				return true
+	type flagSetModel struct {
+		owner      *cmdNode
+		persistent bool
+	}
+	sets := map[*eval.StructVal]*flagSetModel{}
+	mkSet := func(recv eval.Value, persistent bool) eval.Value {
+		n := nodeOf(recv)
+		if n == nil {
+			ci.problems = append(ci.problems, "Flags() on a value that is not a command literal")
+			return eval.Opaque{Why: "flag set"}
+		}
+		sv := &eval.StructVal{F: map[string]eval.Value{"SortFlags": true}}
+		sets[sv] = &flagSetModel{n, persistent}
+		return &eval.Ref{Get: func() eval.Value { return sv }, Set: func(eval.Value) {}}
+	}
+	ext := func(name string, f func(pos token.Pos, recv eval.Value, args []eval.Value) eval.Value) {
+		ev.Extern[name] = func(ev *eval.Evaluator, pos token.Pos, recv eval.Value, args []eval.Value) eval.Value {
+			return f(pos, recv, args)
+		}
+	}
+	ext(cobraCmd+"AddCommand", func(pos token.Pos, recv eval.Value, args []eval.Value) eval.Value {
+		parent := nodeOf(recv)
+		for _, a := range args {
+			kids := []eval.Value{a}
+			if sl, ok := a.(eval.Slice); ok {
+				kids = sl.Elems()
 			}
-			call, ok := n.(*ast.CallExpr)
-			if !ok {
-				return true
-			}
-			fn, _ := typeutil.Callee(info, call).(*types.Func)
-			if fn == nil {
-				return true
-			}
-			full := fn.FullName()
-			sel, _ := unparenExpr(call.Fun).(*ast.SelectorExpr)
-			if sel == nil {
-				return true
-			}
-			if full == cobraCmd+"AddCommand" {
-				parent := cmdOf(sel.X)
-				for _, a := range call.Args {
-					if ch := cmdOf(a); ch != nil && parent != nil {
-						ch.parent = parent
-					}
-				}
-				return true
-			}
-			if !strings.HasPrefix(full, pflagSet) {
-				return true
-			}
-			m := strings.TrimPrefix(full, pflagSet)
-			if !strings.HasSuffix(m, "VarP") && !strings.HasSuffix(m, "Var") {
-				return true
-			}
-			withShort := strings.HasSuffix(m, "VarP")
-			kind := strings.ToLower(strings.TrimSuffix(strings.TrimSuffix(m, "P"), "Var"))
-			inner, _ := unparenExpr(sel.X).(*ast.CallExpr)
-			if inner == nil {
-				problems = append(problems, c.PosStr(call.Pos())+": flag set is not obtained by a direct Flags()/PersistentFlags() call")
-				return true
-			}
-			ifn, _ := typeutil.Callee(info, inner).(*types.Func)
-			isel, _ := unparenExpr(inner.Fun).(*ast.SelectorExpr)
-			if ifn == nil || isel == nil {
-				return true
-			}
-			owner := cmdOf(isel.X)
-			if owner == nil {
-				problems = append(problems, c.PosStr(call.Pos())+": flag bound on an unknown command")
-				return true
-			}
-			f := &cmdFlag{kind: kind, persistent: ifn.FullName() == cobraCmd+"PersistentFlags", pos: call.Pos()}
-			if u, ok := unparenExpr(call.Args[0]).(*ast.UnaryExpr); ok && u.Op == token.AND {
-				if id, ok := unparenExpr(u.X).(*ast.Ident); ok {
-					f.v, _ = info.Uses[id].(*types.Var)
+			for _, k := range kids {
+				if ch := nodeOf(k); ch != nil && parent != nil {
+					ch.parent = parent
+				} else {
+					ci.problems = append(ci.problems, c.PosStr(pos)+": AddCommand with a value that is not a command literal")
 				}
 			}
-			cs := func(i int) (constant.Value, bool) {
-				if i >= len(call.Args) {
-					return nil, false
-				}
-				tv, ok := info.Types[call.Args[i]]
-				return tv.Value, ok && tv.Value != nil
-			}
-			if v, ok := cs(1); ok && v.Kind() == constant.String {
-				f.name = constant.StringVal(v)
-			}
-			di := 2
+		}
+		return nil
+	})
+	ext(cobraCmd+"Flags", func(_ token.Pos, recv eval.Value, _ []eval.Value) eval.Value { return mkSet(recv, false) })
+	ext(cobraCmd+"PersistentFlags", func(_ token.Pos, recv eval.Value, _ []eval.Value) eval.Value { return mkSet(recv, true) })
+	for _, k := range []string{"String", "Int", "Bool", "Float64", "Float32"} {
+		for _, withShort := range []bool{false, true} {
+			kind, withShort := strings.ToLower(k), withShort
+			name := pflagSet + k + "Var"
 			if withShort {
-				if v, ok := cs(2); ok && v.Kind() == constant.String {
-					f.short = constant.StringVal(v)
+				name += "P"
+			}
+			ext(name, func(pos token.Pos, recv eval.Value, a []eval.Value) eval.Value {
+				fsv, _ := unref(recv).(*eval.StructVal)
+				set := sets[fsv]
+				want := 4
+				if withShort {
+					want = 5
 				}
-				di = 3
-			}
-			if v, ok := cs(di); ok {
-				switch kind {
-				case "string":
-					f.def = constant.StringVal(v)
-				case "int":
-					n, _ := constant.Int64Val(constant.ToInt(v))
-					f.def = n
-				case "bool":
-					f.def = constant.BoolVal(v)
-				case "float64", "float32":
-					x, _ := constant.Float64Val(constant.ToFloat(v))
-					f.def = x
+				ref, isRef := a[0].(*eval.Ref)
+				if set == nil || len(a) != want || !isRef {
+					ci.problems = append(ci.problems, c.PosStr(pos)+": flag binding not resolved (a pointer to the flag's variable and a flag set obtained from a command expected)")
+					return nil
+				}
+				f := &cmdFlag{kind: kind, persistent: set.persistent, pos: pos}
+				if st, ok := a[1].(eval.Str); ok && st.IsConst() {
+					f.name = st.Const()
+				}
+				di := 2
+				if withShort {
+					if st, ok := a[2].(eval.Str); ok && st.IsConst() {
+						f.short = st.Const()
+					}
+					di = 3
+				}
+				switch d := a[di].(type) {
+				case eval.Str:
+					if d.IsConst() && kind == "string" {
+						f.def = d.Const()
+					}
+				case eval.Lin:
+					if d.IsConst() && kind == "int" {
+						f.def = d.C
+					}
+				case bool:
+					if kind == "bool" {
+						f.def = d
+					}
+				case *eval.FExpr:
+					if d.IsConst() && (kind == "float64" || kind == "float32") {
+						f.def = d.C
+					}
+				}
+				if f.name == "" || f.def == nil {
+					ci.problems = append(ci.problems, c.PosStr(pos)+": flag binding not resolved (constant name and constant default of the flag's type expected)")
+					return nil
+				}
+				ref.Set(toEval(kind, f.def)) // pflag stores the default through the pointer at registration
+				ci.refs[f] = ref
+				set.owner.flags = append(set.owner.flags, f)
+				return nil
+			})
+		}
+	}
+	ext(pflagSet+"Lookup", func(pos token.Pos, recv eval.Value, a []eval.Value) eval.Value {
+		fsv, _ := unref(recv).(*eval.StructVal)
+		set := sets[fsv]
+		name, _ := a[0].(eval.Str)
+		if set == nil || !name.IsConst() {
+			return eval.Nil{}
+		}
+		for n := set.owner; n != nil; n = n.parent {
+			for _, f := range n.flags {
+				if f.name == name.Const() && (n == set.owner || f.persistent) {
+					m, ok := ci.flagMeta[f]
+					if !ok {
+						m = &eval.StructVal{F: map[string]eval.Value{"Name": eval.S(f.name), "Shorthand": eval.S(f.short), "NoOptDefVal": eval.S(""), "Hidden": false, "Deprecated": eval.S(""), "Usage": eval.S(""), "DefValue": eval.S(flagString(f.def))}}
+						ci.flagMeta[f] = m
+					}
+					f.lookupPos = pos
+					return &eval.Ref{Get: func() eval.Value { return m }, Set: func(eval.Value) {}}
 				}
 			}
-			if f.v == nil || f.name == "" || f.def == nil {
-				problems = append(problems, c.PosStr(call.Pos())+": flag binding not resolved (variable, constant name and constant default expected)")
-				return true
+		}
+		return eval.Nil{}
+	})
+	for _, m := range []string{cobraCmd + "MarkFlagRequired", cobraCmd + "MarkPersistentFlagRequired", pflagSet + "MarkHidden", pflagSet + "MarkDeprecated", pflagSet + "MarkShorthandDeprecated", cobraCmd + "MarkFlagsMutuallyExclusive", cobraCmd + "MarkFlagsRequiredTogether"} {
+		ext(m, func(token.Pos, eval.Value, []eval.Value) eval.Value { return eval.Nil{} })
+	}
+	for _, m := range []string{cobraCmd + "SetHelpTemplate", cobraCmd + "SetUsageTemplate", cobraCmd + "SetVersionTemplate", cobraCmd + "SetOut", cobraCmd + "SetErr"} {
+		ext(m, func(token.Pos, eval.Value, []eval.Value) eval.Value { return nil })
+	}
+	// positional-argument validators: the scenarios pass no positional arguments
+	argCount := func(ok func(n, have int64) bool, what string) func(token.Pos, eval.Value, []eval.Value) eval.Value {
+		return func(_ token.Pos, _ eval.Value, a []eval.Value) eval.Value {
+			var n int64
+			if len(a) > 0 {
+				n, _ = linConst(a[0])
 			}
-			owner.flags = append(owner.flags, f)
-			return true
-		})
+			return &eval.FuncVal{Native: func(ev *eval.Evaluator, args []eval.Value) eval.Value {
+				have := int64(0)
+				if len(args) == 2 {
+					if sl, isSlice := args[1].(eval.Slice); isSlice {
+						have = int64(sl.Len())
+					}
+				}
+				if ok(n, have) {
+					return eval.Nil{}
+				}
+				return eval.ErrVal{Msg: eval.S(what)}
+			}}
+		}
+	}
+	ext("github.com/spf13/cobra.MinimumNArgs", argCount(func(n, have int64) bool { return have >= n }, "requires more arguments"))
+	ext("github.com/spf13/cobra.MaximumNArgs", argCount(func(n, have int64) bool { return have <= n }, "accepts fewer arguments"))
+	ext("github.com/spf13/cobra.ExactArgs", argCount(func(n, have int64) bool { return have == n }, "accepts a fixed number of arguments"))
+	ext("github.com/spf13/cobra.NoArgs", func(_ token.Pos, _ eval.Value, a []eval.Value) eval.Value {
+		if len(a) == 2 {
+			if sl, ok := a[1].(eval.Slice); ok && sl.Len() > 0 {
+				return eval.ErrVal{Msg: eval.S("unknown command")}
+			}
+		}
+		return eval.Nil{}
+	})
+	ext("github.com/spf13/cobra.ArbitraryArgs", func(token.Pos, eval.Value, []eval.Value) eval.Value { return eval.Nil{} })
+	var inits []*ast.FuncDecl
+	for _, file := range p.Syntax {
+		if strings.HasSuffix(c.Fset.Position(file.Pos()).Filename, "_test.go") {
+			continue
+		}
+		for _, d := range file.Decls {
+			if fd, ok := d.(*ast.FuncDecl); ok && fd.Recv == nil && fd.Name.Name == "init" && fd.Body != nil {
+				inits = append(inits, fd)
+			}
+		}
+	}
+	sort.Slice(inits, func(a, b int) bool {
+		return c.Fset.Position(inits[a].Pos()).Filename < c.Fset.Position(inits[b].Pos()).Filename
+	})
+	for _, fd := range inits {
+		fd := fd
+		if err := ev.Try(func() { ev.CallValue(&eval.FuncVal{Decl: fd, Pkg: p}, nil) }); err != nil {
+			return ci, fmt.Errorf("cannot interpret %s: %v", c.PosStr(fd.Pos()), err)
+		}
+	}
+	// flags given a no-option default
+	for _, n := range ci.order {
+		for _, f := range n.flags {
+			if m := ci.flagMeta[f]; m != nil {
+				if st, ok := m.F["NoOptDefVal"].(eval.Str); !ok || !st.IsConst() || st.Const() != "" {
+					owner := n
+					owner.noOpt = append(owner.noOpt, cmdNoOpt{f.name, f.lookupPos})
+				}
+			}
+		}
+	}
+	if len(ci.problems) > 0 {
+		sort.Strings(ci.problems)
+		return ci, fmt.Errorf("%s", strings.Join(uniqStrings(ci.problems), "; "))
+	}
+	return ci, nil
+}
+
+// cmdTree: the commands by path ("sam toMultiAlign"), from an interpretation of package cmd's init() functions.
+func cmdTree(c *core.Ctx) (map[string]*cmdNode, error) {
+	ci, err := interpretCmdInit(c, newEval(c))
+	if ci == nil {
+		return nil, err
 	}
 	out := map[string]*cmdNode{}
-	for _, n := range byObj {
+	for _, n := range ci.order {
 		if n.use != "" {
 			out[n.path()] = n
 		}
 	}
-	if len(problems) > 0 {
-		sort.Strings(problems)
-		return out, fmt.Errorf("%s", strings.Join(problems, "; "))
-	}
-	return out, nil
+	return out, err
 }
 
 // ------------------------------------------------------------------ scenarios
@@ -444,7 +516,7 @@ var cmdSpecs = []cmdSpec{
 	{
 		path: "sam toMultiAlign", props: []string{"C01", "C15"},
 		special: func(b *scenario) []*scenario {
-			return []*scenario{
+			out := []*scenario{
 				b.clone("no window").set("start", int64(-1)).set("end", int64(-1)),
 				b.clone("only --start").set("end", int64(-1)),
 				b.clone("only --end").set("start", int64(-1)),
@@ -456,6 +528,21 @@ var cmdSpecs = []cmdSpec{
 				b.clone("legacy --trim alone").set("start", int64(-1)).set("end", int64(-1)).set("trim", true),
 				b.clone("--pad and window").set("pad", true),
 			}
+			// the whole grid of legacy and current window flags (reconciliation: refused together; 0-based half-open to
+			// 1-based inclusive)
+			for _, trim := range []bool{false, true} {
+				for _, ts := range []int64{-1, 0, 3} {
+					for _, te := range []int64{-1, 5} {
+						for _, st := range []int64{-1, 2} {
+							for _, en := range []int64{-1, 6} {
+								out = append(out, b.clone(fmt.Sprintf("trim=%v trimstart=%d trimend=%d start=%d end=%d", trim, ts, te, st, en)).
+									set("trim", trim).set("trimstart", ts).set("trimend", te).set("start", st).set("end", en))
+							}
+						}
+					}
+				}
+			}
+			return out
 		},
 		want: func(s *scenario) cmdWant {
 			legacy := s.boolean("trim") || s.num("trimstart") != -1 || s.num("trimend") != -1
@@ -789,8 +876,30 @@ func runCmdScenario(c *core.Ctx, n *cmdNode, s *scenario) cmdRun {
 		return &eval.Ref{Get: func() eval.Value { return h }, Set: func(eval.Value) {}}
 	}
 	vis := n.visible()
-	for _, f := range vis {
-		ev.SetGlobal(f.v, toEval(f.kind, s.vals[f.name]))
+	// the flag variables are whatever init() bound the flags to in THIS evaluator: the registration is interpreted again
+	// and each flag's value is stored through the reference it was registered with
+	ci, ierr := interpretCmdInit(c, ev)
+	if ierr != nil || ci == nil {
+		run.err = fmt.Errorf("command registration: %v", ierr)
+		return run
+	}
+	var here *cmdNode
+	for _, m := range ci.order {
+		if m.use != "" && m.path() == n.path() {
+			here = m
+		}
+	}
+	if here == nil {
+		run.err = fmt.Errorf("command %q not registered", n.path())
+		return run
+	}
+	for _, f := range here.visible() {
+		val, ok := s.vals[f.name]
+		if !ok {
+			run.err = fmt.Errorf("flag --%s has no value in the scenario", f.name)
+			return run
+		}
+		ci.refs[f].Set(toEval(f.kind, val))
 	}
 	for name, desc := range map[string]string{"Stdin": "stdin", "Stdout": "stdout", "Stderr": "stderr"} {
 		if v := lookupPkgVar(c, "os", name); v != nil {
@@ -971,7 +1080,23 @@ func runCmdScenario(c *core.Ctx, n *cmdNode, s *scenario) cmdRun {
 		}
 	}
 	cmdModel := &struct{ name string }{n.use}
-	run.result, run.err = ev.CallLit(n.runE, cmdPkg, cmdModel, eval.NewSlice())
+	_ = cmdPkg
+	if len(here.otherHooks) > 0 {
+		run.err = fmt.Errorf("the command uses hooks that are not modelled: %v", here.otherHooks)
+		return run
+	}
+	// cobra's order: positional-argument validation, PreRunE, RunE; the first error ends the run
+	run.err = ev.Try(func() {
+		for _, hook := range []*eval.FuncVal{here.argsV, here.preRunE, here.runEV} {
+			if hook == nil {
+				continue
+			}
+			run.result = ev.CallValue(hook, []eval.Value{cmdModel, eval.NewSlice()})
+			if _, isErr := run.result.(eval.ErrVal); isErr {
+				return
+			}
+		}
+	})
 	return run
 }
 
